@@ -12,6 +12,7 @@ package main
 // (c12_oracle.go) on what the implementation showed.
 
 import (
+	"encoding/json"
 	"fmt"
 	"math/rand"
 	"os"
@@ -332,13 +333,52 @@ func c12Enumerate(max int, n int) [][]string {
 	return res
 }
 
+// c12Corpus: witnesses of the three defects this check found in the unrepaired code
+// (repaired in /repo acffb03, 0c73de3, b2d3d75). They run first on every run as ordinary
+// cases: nothing suppresses them, a regression is an unlisted oracle failure (VIOLATION).
+// The last three extend them to the full life cycle the repaired code must show.
+var c12Corpus = [][]string{
+	{"hook cfg 3 scripted", "hook register BEARER - tok1 u1", "hook notify u1=r500:fail"},
+	{"hook cfg 3 prod", "hook register NONE - - u1", "hook notify u1=r200:OK"},
+	{"hook cfg 3 scripted", "hook register BEARER - tok1 u1", "hook notify u1=r200:OK", "hook get u1"},
+	{"hook cfg 3 scripted", "hook register BEARER - tok1 u1", "hook notify u1=r500:fail", "hook notify u1=terr", "hook get u1", "hook restart", "hook notify u1=ub200", "hook get u1", "hook notify u1=r200:OK", "hook register BEARER - tok1 u1", "hook get u1", "hook notify u1=r200:OK", "hook get u1"},
+	{"hook cfg 2 prod", "hook register NONE - - u1", "hook register CUSTOM_HEADER - key11 u2", "hook notify u1=r200:OK u2=r503:fail", "hook restart", "hook notify u1=terr u2=r200:OK", "hook notify u1=ub500 u2=r200:-", "hook get u1", "hook get u2"},
+	{"hook cfg 2 scripted", "hook register BEARER - tok1 u1", "hook notify u1=r500:fail", "hook notify u1=r404:-", "hook get u1", "hook register CUSTOM_HEADER X-Api-Key other u1", "hook get u1", "hook dump", "hook restart", "hook get u1"},
+}
+
+// c12FixedWitnesses reads the `fixed` entries of this property from KNOWN_FINDINGS.json.
+func c12FixedWitnesses(path string) [][]string {
+	b, err := os.ReadFile(path)
+	if err != nil {
+		return nil
+	}
+	var f struct {
+		Fixed []struct {
+			Property string `json:"property"`
+			Witness  struct {
+				Ops []string `json:"ops"`
+			} `json:"witness"`
+		} `json:"fixed"`
+	}
+	if json.Unmarshal(b, &f) != nil {
+		return nil
+	}
+	var res [][]string
+	for _, e := range f.Fixed {
+		if e.Property == "C12" && len(e.Witness.Ops) > 0 {
+			res = append(res, e.Witness.Ops)
+		}
+	}
+	return res
+}
+
 // ---- entry point -----------------------------------------------------------
 
 func runC12(c *Ctx) error {
 	c.R.Rule = "sequences of 8..26 ops (thorough: ..60) over 4 URLs: register {BEARER|CUSTOM_HEADER|no auth|header name left out} (so re-registration of active and inactive URLs happens), " +
 		"notify with a per-URL outcome from {200, other status incl. 2xx/3xx, transport error, unreadable body (status 200 or 500)}, get, delete (also of unknown URLs), requests without url (malformed stream), restart (close + reopen the SQLite file), dump; " +
 		"every max_tries 1..5; scripted client stream + production-client stream against an httptest server; plus every sequence of length <=3 (thorough <=4) over a 7-letter alphabet on one URL for max_tries 1..3. " +
-		"A sequence is non-trivial when it has a failed delivery and at least one of: success after failure, re-registration of an inactive URL, delete-then-register, notify after restart; distinct by op list."
+		"The witnesses of the three repaired defects (corpus) run first. A sequence is non-trivial when it has a failed delivery and at least one of: success after failure, re-registration of an inactive URL, delete-then-register, notify after restart; distinct by op list."
 	r := &c12Run{c: c, perSig: map[string]int{}, shrink: true}
 	if c.Driver != "none" {
 		r.lean = c.lean()
@@ -421,6 +461,19 @@ func runC12(c *Ctx) error {
 			c.R.Disagree(*dis)
 		}
 		return nil
+	}
+
+	// corpus first: built-in witnesses + the witnesses of `fixed` entries
+	seenCorpus := map[string]bool{}
+	for _, seq := range append(append([][]string(nil), c12Corpus...), c12FixedWitnesses(c.Known)...) {
+		key := strings.Join(seq, ";")
+		if seenCorpus[key] {
+			continue
+		}
+		seenCorpus[key] = true
+		if err := runOne(seq, "corpus"); err != nil {
+			return err
+		}
 	}
 
 	// bounded-exhaustive stream
